@@ -1482,11 +1482,11 @@ Proof.
   - split; [apply wf_base_ty; apply (var_top H W)|]. split; intros x [=].
 Qed.
 
-Theorem satisfiable s : wsc s -> J s -> exists th, sat th s.
+Theorem satisfiable s : wsc s -> J s ->
+  exists th, sat th s /\ forall v, c_bound (cell_of s v) = None -> th v = canon s v.
 Proof.
-  intros Ws I. destruct (sat_extend s (canon s) Ws I) as (th & S & _).
-  - intros v _. apply canon_ok. exact I.
-  - exists th. exact S.
+  intros Ws I. apply (sat_extend s (canon s) Ws I).
+  intros v _. apply canon_ok. exact I.
 Qed.
 
 (* fragment-P programs are well-scoped in the sense of Infer/Inv.v *)
@@ -1506,7 +1506,8 @@ Proof.
 Qed.
 
 Theorem core_satisfiable fuel sc prog vals s : progP 0 prog ->
-  run_cmds H fuel prog 0 [] (empty_store sc) = (None, vals, s) -> exists th, sat th s.
+  run_cmds H fuel prog 0 [] (empty_store sc) = (None, vals, s) ->
+  exists th, sat th s /\ forall v, c_bound (cell_of s v) = None -> th v = canon s v.
 Proof.
   intros P R. destruct (core_final_J fuel sc prog vals s P R) as (I & _).
   destruct (engine_inv H fuel sc prog (progP_wf _ _ P) R) as (Iv & _).
@@ -1599,7 +1600,7 @@ Theorem core_bounded fuel sc prog vals s : progP 0 prog ->
 Proof.
   intros P R v t o args Hv Hb Ef.
   destruct (core_final fuel sc prog vals s P R) as (I & [_ Fr] & _).
-  destruct (core_satisfiable fuel sc prog vals s P R) as (th & S).
+  destruct (core_satisfiable fuel sc prog vals s P R) as (th & S & _).
   assert (B : isbase (th v)).
   { apply (fr_new _ _ Fr v); auto; [|congruence].
     unfold cell_of. cbn. destruct v; reflexivity. }
